@@ -28,6 +28,35 @@ theorem wp_processInput_havoc {Q : List SEv → Stream → Prop} {E : Exc → St
     wp (processInput i) Q E st :=
   wp_processInput i st (fun evs sh _ => hq evs sh) (fun e sh _ _ => he e sh)
 
+/-- does the stream state machine accept input `i` in shape `sh` -/
+def okStep (sh : Shape) (i : StreamInputs) : Bool :=
+  match (stepShape sh i).1 with
+  | .ok _ => true
+  | _ => false
+
+/-- sharper than `wp_processInput`: the error branch knows that the table refused the input -/
+theorem wp_processInput_sharp {Q : List SEv → Stream → Prop} {E : Exc → Stream → Prop} (i : StreamInputs) (st : Stream)
+    (hq : ∀ evs sh, stepShape st.sm.sh i = (.ok evs, sh) → Q evs { st with sm := { st.sm with sh := sh } })
+    (he : ∀ e sh, okStep st.sm.sh i = false → (stepShape st.sm.sh i).2 = sh →
+            E e { st with sm := { st.sm with sh := sh } }) :
+    wp (processInput i) Q E st := by
+  simp only [processInput, onSM, wp_zoom]
+  unfold wp SM.process
+  cases h : stepShape st.sm.sh i with
+  | mk r sh =>
+    cases r with
+    | ok evs => simpa using hq evs sh h
+    | proto => simpa using he _ sh (by simp [okStep, h]) (by simp [h])
+    | streamClosed w => simpa using he _ sh (by simp [okStep, h]) (by simp [h])
+
+/-- the `try:` block of `send_headers` (validation, HPACK encoding, fragmentation) never touches the stream
+    object: it only reads it and moves the HPACK context -/
+theorem guarded_frame (cfg : Config) (hs : List Header) (es pp : Bool) (evs : List SEv) (s : Stream × Hp) :
+    wp (Stream.guardedHeaderBlocks cfg hs es pp evs) (fun _ t => t.1 = s.1) (fun _ t => t.1 = s.1) s := by
+  simp only [Stream.guardedHeaderBlocks, buildHdrFlags, buildHeaderBlocks, onStream, onHp]
+  wps
+  repeat' (first | rfl | (apply wp_havoc <;> intros <;> first | rfl | trivial) | wps | split | intro _)
+
 /-- a generated WindowManager method applied to the stream's inbound window -/
 theorem wp_onWM {Q : Option Int → Stream → Prop} {E : Exc → Stream → Prop} (f : WindowManager → WRes) (st : Stream) :
     wp (onWM f) Q E st =
